@@ -1,7 +1,6 @@
 package harness
 
 import (
-	"runtime/debug"
 	"bytes"
 	"context"
 	"crypto/sha256"
@@ -9,6 +8,7 @@ import (
 	"errors"
 	"fmt"
 	"math/big"
+	"runtime/debug"
 	"sort"
 	"strings"
 	"time"
@@ -189,8 +189,10 @@ func (w *World) probeBalances(n *Node, extra []string) {
 	if before == nil || !before.Loaded {
 		return
 	}
+	w.noteTainted(before, w.nstate(n.Idx)) // the truncation loop may have run since the last observation
 	callMark := len(w.AccCalls)
 	netMark := len(w.Net.Log)
+	truncMark := n.Log.TruncStarts
 	addrs := append([]string{}, w.WAddr...)
 	for _, nn := range w.Nodes {
 		addrs = append(addrs, nn.Addr)
@@ -263,6 +265,9 @@ func (w *World) probeBalances(n *Node, extra []string) {
 	}
 	after := w.snapshot(n)
 	undisturbed := callMark == len(w.AccCalls) && netMark == len(w.Net.Log) && w.Net.quiet() && len(before.Parked) == 0 && after != nil && len(after.Parked) == 0
+	if n.Log.TruncStarts != truncMark || n.Log.TruncStarts != n.Log.Truncs+len(n.Log.Fatals) {
+		undisturbed = false // the weight-triggered truncation loop ran (or is running) during the queries
+	}
 	if !undisturbed {
 		w.probe("c06-purity-not-judged-concurrent-activity")
 	}
@@ -298,10 +303,19 @@ func (w *World) probeBalances(n *Node, extra []string) {
 				overdrawn = true // the union-overdraw oracle reports this ledger; the sum cannot hold on it
 			}
 		}
-		if overdrawn {
+		if st := w.nstate(n.Idx); len(st.tainted) > 0 || len(st.gross) > 0 {
+			// the checkpoint kept a wallet's gross inflow (known finding, reported by the union-overdraw
+			// and C07 oracles under its own cause): balances read through it cannot add up
+			w.probe("c02-supply-sum-skipped-checkpoint-tainted")
+		} else if overdrawn {
 			w.probe("c02-supply-sum-skipped-ledger-overdrawn")
 		} else if sum.Cmp(exp) != 0 {
-			w.violate("C02", "supply", "reported-balances-do-not-sum-to-genesis-supply", n.Idx, "sum %s expected %s", sum, exp)
+			det := ""
+			for _, a := range addrs {
+				in, out := flows(a, allv)
+				det += fmt.Sprintf(" %s:in=%s,out=%s,funds=%v", a[:8], in, out, before.Funds[a])
+			}
+			w.violate("C02", "supply", "reported-balances-do-not-sum-to-genesis-supply", n.Idx, "sum %s expected %s; genesis issuer %s;%s; live %d stored %d", sum, exp, before.Genesis[:8], det, len(before.Live), len(before.Stored))
 		}
 		w.probe("c02-supply-sum-checked")
 	}
@@ -801,15 +815,30 @@ func (w *World) probeReads(n *Node) {
 		return
 	}
 	ctx := context.Background()
+	conf := s.confirmed()
 	check := func(h Hash, v *accountant.Vertex) {
 		rv, err := n.Book.ReadVertex(ctx, h)
 		if err != nil {
+			// an unconfirmed tip may be dropped by the validation of an operation still in flight
+			// (that is C01's mechanism, not a loss): only what was confirmed must stay readable
+			if _, c := conf[h]; !c {
+				if s2 := w.snapshot(n); s2 != nil && s2.get(h) == nil {
+					w.probe("by-hash-read-raced-with-tip-drop")
+					return
+				}
+			}
 			w.violate("C07", "lookup", "vertex-not-retrievable-by-hash", n.Idx, "vertex %s: %v", hx(h), err)
 		} else if !sameSigned(&rv, v) {
 			w.violate("C19", "storage", "vertex-read-back-differs", n.Idx, "vertex %s", hx(h))
 		}
 		rt, err := n.Book.ReadTransactionByHash(ctx, v.Transaction.Hash)
 		if err != nil {
+			if _, c := conf[h]; !c {
+				if s2 := w.snapshot(n); s2 != nil && s2.get(h) == nil {
+					w.probe("by-hash-read-raced-with-tip-drop")
+					return
+				}
+			}
 			w.violate("C07", "lookup", "transaction-not-retrievable-by-hash", n.Idx, "trx %s: %v", hx(v.Transaction.Hash), err)
 		} else if !sameTrx(&rt, &v.Transaction) {
 			w.violate("C19", "storage", "transaction-read-back-differs", n.Idx, "trx %s", hx(v.Transaction.Hash))
